@@ -116,7 +116,8 @@ def run_case(case):
     kinds = rng.sample(dirrun.JUNK_KINDS, rng.randint(2, 5))
     for j, kind in enumerate(kinds):
         src = rng.choice(pels)
-        data = dirrun.pce_size_junk(rng) if kind == 'pceSize' else dirrun.make_junk(rng, kind, src)
+        data = dirrun.pce_size_junk(rng) if kind == 'pceSize' else \
+            dirrun.callout_junk(rng, kind) if kind in ('pceSizeMore', 'calloutFlip') else dirrun.make_junk(rng, kind, src)
         nm = rng.choice(['0_first', '2023_middle', 'zz_last', 'M_mid', '~tail']) + '_%s_%d' % (kind, j)
         junk.append((nm, data, kind))
     nested = []
